@@ -50,9 +50,12 @@ def plan(tier, seed):
                           manager='bdd' if k % 3 else 'autoref',
                           steps=250 if tier == 'quick' else 1500,
                           hashseed=k))
+    # instances beyond truth tables (12-70 variables), see vf/big.py
+    from vf import big
+    specs.extend(big.specs(tier, seed, 'C18'))
     meta = dict(
         rule=RULE,
-        require=['history_view_checks', 'long_lived_handle_checks',
+        require=['big_histories', 'history_view_checks', 'long_lived_handle_checks',
                  'dynamic_histories',
                  'gc_freed_nodes', 'traversals', 'descendants_checks', 'nx_graphs',
                  'dot_files', 'dot_roots_evaluated', 'nx_roots_evaluated'],
@@ -538,5 +541,8 @@ def history(ctx, spec):
 
 
 def run_shard(ctx, spec):
+    if spec['kind'] == 'big':
+        from vf import big
+        return ctx.guard('big', big.run, ctx, spec, case=spec)
     fn = dict(all=all_, history=history)[spec['kind']]
     ctx.guard(spec['kind'], fn, ctx, spec, case=spec)
